@@ -34,8 +34,8 @@ def GotOk (g : Got) : Prop := g = .answer ∨ g = .nothing ∨ g = .raise .struc
 theorem request_time_le (s : St) (r : Req) (t : Nat) : (request s r t).2.time ≤ s.time + t := by
   unfold request St.next
   cases h : s.script with
-  | nil => cases hd : s.dflt <;> simp [h, hd]
-  | cons x xs => cases x <;> simp [h]
+  | nil => cases hd : s.dflt <;> simp [h, hd, St.poison]
+  | cons x xs => cases x <;> simp [h, St.poison]
 
 theorem request_got (s : St) (r : Req) (t : Nat) : GotOk (request s r t).1 := by
   unfold request St.next GotOk
@@ -295,6 +295,709 @@ theorem silent_after_cmninfo_connect (dev : DevDesc) (h : 1 ≤ dev.chmax) :
   · next s' hh => rw [hh] at a; simp at a
   · next e s' hh => rw [hh] at a; simp at a
   · next s' hh => rw [hh] at b; exact (connectLoop_silent dev 5 s' b).1
+
+
+/-! ### sessions: calls after (and around) the handshake -/
+
+theorem startCleansUp_true : startCleansUp = true := by decide
+
+theorem next_time (s : St) : s.next.2.time = s.time := by
+  unfold St.next; split <;> rfl
+
+theorem ackReq_time_le (x : Sess) (r : Sent) (t : Nat) : (ackReq x r t).2.st.time ≤ x.st.time + t := by
+  unfold ackReq
+  dsimp only
+  split
+  · have hn := next_time x.st
+    generalize x.st.next = p at hn
+    obtain ⟨resp, st⟩ := p
+    simp only at hn ⊢
+    cases resp <;> simp [St.poison, hn]
+  · simp
+
+theorem ackReq_dev (x : Sess) (r : Sent) (t : Nat) : (ackReq x r t).2.dev = x.dev := by
+  unfold ackReq
+  dsimp only
+  split
+  · generalize x.st.next = p
+    obtain ⟨resp, st⟩ := p
+    cases resp <;> rfl
+  · rfl
+
+/-- an ACK wait changes nothing but the link state, the clock and the log -/
+theorem ackReq_flags (x : Sess) (r : Sent) (t : Nat) :
+    (ackReq x r t).2.started = x.started ∧ (ackReq x r t).2.recvThr = x.recvThr ∧
+    (ackReq x r t).2.intf = x.intf ∧ (ackReq x r t).2.connected = x.connected ∧
+    (ackReq x r t).2.streamStarted = x.streamStarted ∧ (ackReq x r t).2.streamThr = x.streamThr := by
+  unfold ackReq
+  dsimp only
+  split
+  · generalize x.st.next = p
+    obtain ⟨resp, st⟩ := p
+    cases resp <;> simp
+  · simp
+
+theorem ackReq_err (x : Sess) (r : Sent) (t : Nat) (e : Err) (h : (ackReq x r t).1 = .raise e) :
+    e = .structError := by
+  unfold ackReq at h
+  dsimp only at h
+  split at h
+  · generalize x.st.next = p at h
+    obtain ⟨resp, st⟩ := p
+    cases resp <;> simp at h
+    exact h.symm
+  · simp at h
+
+/-- everything but the clock, the link script and the log -/
+def SameCtl (x y : Sess) : Prop :=
+  y.dev = x.dev ∧ y.started = x.started ∧ y.recvThr = x.recvThr ∧ y.intf = x.intf ∧
+  y.connected = x.connected ∧ y.streamStarted = x.streamStarted ∧ y.streamThr = x.streamThr
+
+theorem SameCtl.refl (x : Sess) : SameCtl x x := ⟨rfl, rfl, rfl, rfl, rfl, rfl, rfl⟩
+
+theorem SameCtl.trans {x y z : Sess} (h1 : SameCtl x y) (h2 : SameCtl y z) : SameCtl x z := by
+  obtain ⟨a0, a1, a2, a3, a4, a5, a6⟩ := h1
+  obtain ⟨b0, b1, b2, b3, b4, b5, b6⟩ := h2
+  exact ⟨b0.trans a0, b1.trans a1, b2.trans a2, b3.trans a3, b4.trans a4, b5.trans a5, b6.trans a6⟩
+
+theorem ackStep_spec (x : Sess) (r : Sent) (t : Nat) :
+    (ackStep x r t).2.st.time ≤ x.st.time + t ∧ SameCtl x (ackStep x r t).2 ∧
+    (∀ e, (ackStep x r t).1 = some e → e = .structError) := by
+  have h1 := ackReq_time_le x r t
+  have h2 := ackReq_flags x r t
+  have h3 := ackReq_dev x r t
+  have h4 := ackReq_err x r t
+  unfold ackStep
+  generalize ackReq x r t = p at h1 h2 h3 h4
+  obtain ⟨a, y⟩ := p
+  simp only at h1 h2 h3 h4
+  obtain ⟨b1, b2, b3, b4, b5, b6⟩ := h2
+  cases a with
+  | raise e' =>
+    refine ⟨h1, ⟨h3, b1, b2, b3, b4, b5, b6⟩, ?_⟩
+    intro e he
+    simp only [Option.some.injEq] at he
+    subst he
+    exact h4 _ rfl
+  | ok => exact ⟨h1, ⟨h3, b1, b2, b3, b4, b5, b6⟩, fun e he => by simp at he⟩
+  | fail => exact ⟨h1, ⟨h3, b1, b2, b3, b4, b5, b6⟩, fun e he => by simp at he⟩
+
+theorem channelsWrite_spec (x : Sess) :
+    (channelsWrite x).2.st.time ≤ x.st.time + (ackTimeoutDiv + ackTimeoutEnable) ∧
+    SameCtl x (channelsWrite x).2 ∧
+    (∀ e, (channelsWrite x).1 = some e → (e = .assertion ∧ x.started = false) ∨ e = .structError) := by
+  unfold channelsWrite
+  split
+  · next hs =>
+    refine ⟨by simp, SameCtl.refl x, ?_⟩
+    intro e he
+    simp only [Option.some.injEq] at he
+    exact Or.inl ⟨he.symm, by simpa using hs⟩
+  · split
+    · exact ⟨by simp, SameCtl.refl x, fun e he => by simp at he⟩
+    · split
+      · obtain ⟨t1, c1, e1⟩ := ackStep_spec x .div ackTimeoutDiv
+        generalize ackStep x .div ackTimeoutDiv = p at t1 c1 e1
+        obtain ⟨o, y⟩ := p
+        cases o with
+        | some e' =>
+          simp only at t1 c1 e1 ⊢
+          refine ⟨by omega, c1, ?_⟩
+          intro e he
+          simp only [Option.some.injEq] at he
+          subst he
+          exact Or.inr (e1 _ rfl)
+        | none =>
+          simp only at t1 c1 e1 ⊢
+          obtain ⟨t2, c2, e2⟩ := ackStep_spec y .enable ackTimeoutEnable
+          exact ⟨by omega, c1.trans c2, fun e he => Or.inr (e2 e he)⟩
+      · obtain ⟨t2, c2, e2⟩ := ackStep_spec x .enable ackTimeoutEnable
+        exact ⟨by omega, c2, fun e he => Or.inr (e2 e he)⟩
+
+theorem commDisconnect_time (x : Sess) : (commDisconnect x).st.time ≤ x.st.time + drain := by
+  unfold commDisconnect
+  split
+  · simp [dropAll_time]
+  · simp
+
+theorem hlStreamStop_time_le (x : Sess) (w : Nat) :
+    (hlStreamStop x w).2.st.time ≤ x.st.time + (ackTimeoutStop + streamPollTimeout) := by
+  unfold hlStreamStop
+  split
+  · obtain ⟨t1, _, _⟩ := ackStep_spec x (.info .stop) ackTimeoutStop
+    generalize ackStep x (.info .stop) ackTimeoutStop = p at t1
+    obtain ⟨o, y⟩ := p
+    cases o with
+    | some e => simp only at t1 ⊢; omega
+    | none =>
+      simp only at t1 ⊢
+      have : (if y.streamThr = true then min w streamPollTimeout else 0) ≤ streamPollTimeout := by
+        split
+        · exact Nat.min_le_right _ _
+        · exact Nat.zero_le _
+      omega
+  · simp
+
+/-- what `NxscopeHandler.stream_stop()` does to the control state: on success the stream thread is gone -/
+theorem hlStreamStop_ctl (x : Sess) (w : Nat) :
+    (hlStreamStop x w).2.dev = x.dev ∧ (hlStreamStop x w).2.started = x.started ∧
+    (hlStreamStop x w).2.recvThr = x.recvThr ∧ (hlStreamStop x w).2.intf = x.intf ∧
+    (hlStreamStop x w).2.connected = x.connected ∧
+    (((hlStreamStop x w).1 = none ∧ (hlStreamStop x w).2.streamThr = (x.streamThr && !x.streamStarted) ∧
+        (hlStreamStop x w).2.streamStarted = false) ∨
+     ((hlStreamStop x w).1 = some .structError ∧ (hlStreamStop x w).2.streamThr = x.streamThr ∧
+        (hlStreamStop x w).2.streamStarted = x.streamStarted)) := by
+  unfold hlStreamStop
+  split
+  · next hs =>
+    obtain ⟨_, c1, e1⟩ := ackStep_spec x (.info .stop) ackTimeoutStop
+    generalize ackStep x (.info .stop) ackTimeoutStop = p at c1 e1
+    obtain ⟨o, y⟩ := p
+    obtain ⟨a0, a1, a2, a3, a4, a5, a6⟩ := c1
+    simp only at a0 a1 a2 a3 a4 a5 a6 e1
+    cases o with
+    | some e =>
+      simp only
+      have := e1 e rfl
+      subst this
+      exact ⟨a0, a1, a2, a3, a4, Or.inr ⟨rfl, a6, a5⟩⟩
+    | none =>
+      refine ⟨a0, a1, a2, a3, a4, Or.inl ⟨rfl, ?_, rfl⟩⟩
+      simp [hs]
+  · next hs =>
+    simp only [Bool.not_eq_true] at hs
+    refine ⟨rfl, rfl, rfl, rfl, rfl, Or.inl ⟨rfl, ?_, hs⟩⟩
+    simp [hs]
+
+
+theorem hlStreamStart_time_le (x : Sess) :
+    (hlStreamStart x).2.st.time ≤ x.st.time + (ackTimeoutDiv + ackTimeoutEnable + ackTimeoutStart) := by
+  unfold hlStreamStart
+  split
+  · dsimp only; omega
+  · obtain ⟨t1, _, _⟩ := channelsWrite_spec x
+    generalize channelsWrite x = p at t1
+    obtain ⟨o, y⟩ := p
+    cases o with
+    | some e => simp only at t1 ⊢; omega
+    | none =>
+      simp only at t1 ⊢
+      obtain ⟨t2, _, _⟩ := ackStep_spec y .start ackTimeoutStart
+      generalize ackStep y .start ackTimeoutStart = q at t2
+      obtain ⟨o2, z⟩ := q
+      cases o2 <;> (simp only at t2 ⊢; omega)
+
+/-- `NxscopeHandler.stream_start()`: on success the stream thread runs (and the handler has a device, unless the
+    stream was already marked started); an exception leaves the control state alone -/
+theorem hlStreamStart_ctl (x : Sess) :
+    (hlStreamStart x).2.dev = x.dev ∧ (hlStreamStart x).2.started = x.started ∧
+    (hlStreamStart x).2.recvThr = x.recvThr ∧ (hlStreamStart x).2.intf = x.intf ∧
+    (hlStreamStart x).2.connected = x.connected ∧
+    (((hlStreamStart x).1 = none ∧ x.streamStarted = true ∧ (hlStreamStart x).2.streamThr = x.streamThr ∧
+        (hlStreamStart x).2.streamStarted = true) ∨
+     ((hlStreamStart x).1 = none ∧ x.started = true ∧ (hlStreamStart x).2.streamThr = true ∧
+        (hlStreamStart x).2.streamStarted = true) ∨
+     ((∃ e, (hlStreamStart x).1 = some e ∧ ((e = .assertion ∧ x.started = false) ∨ e = .structError)) ∧
+        (hlStreamStart x).2.streamThr = x.streamThr ∧ (hlStreamStart x).2.streamStarted = x.streamStarted)) := by
+  unfold hlStreamStart
+  split
+  · next hs => exact ⟨rfl, rfl, rfl, rfl, rfl, Or.inl ⟨rfl, hs, rfl, hs⟩⟩
+  · obtain ⟨_, c1, e1⟩ := channelsWrite_spec x
+    generalize hp : channelsWrite x = p at c1 e1
+    obtain ⟨o, y⟩ := p
+    obtain ⟨a0, a1, a2, a3, a4, a5, a6⟩ := c1
+    simp only at a0 a1 a2 a3 a4 a5 a6 e1
+    cases o with
+    | some e =>
+      exact ⟨a0, a1, a2, a3, a4, Or.inr (Or.inr ⟨⟨e, rfl, e1 e rfl⟩, a6, a5⟩)⟩
+    | none =>
+      simp only
+      obtain ⟨_, c2, e2⟩ := ackStep_spec y .start ackTimeoutStart
+      generalize ackStep y .start ackTimeoutStart = q at c2 e2
+      obtain ⟨o2, z⟩ := q
+      obtain ⟨b0, b1, b2, b3, b4, b5, b6⟩ := c2
+      simp only at b0 b1 b2 b3 b4 b5 b6 e2
+      cases o2 with
+      | some e =>
+        exact ⟨b0.trans a0, b1.trans a1, b2.trans a2, b3.trans a3, b4.trans a4,
+          Or.inr (Or.inr ⟨⟨e, rfl, Or.inr (e2 e rfl)⟩, b6.trans a6, b5.trans a5⟩)⟩
+      | none =>
+        -- no exception from `channels_write`: the handler has a device
+        have hst : x.started = true := by
+          cases hx : x.started with
+          | true => rfl
+          | false =>
+            have : (channelsWrite x).1 = some .assertion := by simp [channelsWrite, hx]
+            rw [hp] at this; simp at this
+        exact ⟨b0.trans a0, b1.trans a1, b2.trans a2, b3.trans a3, b4.trans a4, Or.inr (Or.inl ⟨rfl, hst, rfl, rfl⟩)⟩
+
+theorem hlDisconnect_time_le (x : Sess) (w : Nat) :
+    (hlDisconnect x w).2.st.time ≤ x.st.time + hlDisconnectBound := by
+  have hb : hlDisconnectBound = ackTimeoutStop + streamPollTimeout + ackTimeoutDiv + ackTimeoutEnable + drain := rfl
+  rw [hb]
+  unfold hlDisconnect
+  split
+  · have t1 := hlStreamStop_time_le x w
+    generalize hlStreamStop x w = p at t1
+    obtain ⟨o, y⟩ := p
+    cases o with
+    | some e => simp only at t1 ⊢; omega
+    | none =>
+      simp only at t1 ⊢
+      obtain ⟨t2, _, _⟩ := channelsWrite_spec y
+      generalize channelsWrite y = q at t2
+      obtain ⟨o2, z⟩ := q
+      cases o2 with
+      | some e => simp only at t2 ⊢; omega
+      | none =>
+        simp only at t2 ⊢
+        have t3 := commDisconnect_time z
+        omega
+  · dsimp only; omega
+
+theorem hlDisconnectBound_eq : hlDisconnectBound = 48 := by decide
+
+theorem commConnect_time_le (x : Sess) : (commConnect x).2.st.time ≤ x.st.time + bound x.dev.chmax := by
+  unfold commConnect
+  split
+  · dsimp only; omega
+  · rw [bound_eq_cost]
+    have h := connectLoop_time_le x.dev connectAttempts (startState x.st)
+    have hu : (startState x.st).time = x.st.time + drain := by
+      unfold startState; rw [dropAll_time]; rfl
+    rw [hu] at h
+    generalize connectLoop x.dev (startState x.st) connectAttempts = p at h ⊢
+    obtain ⟨o, s⟩ := p
+    cases o <;> (simp only at h ⊢; omega)
+
+/-- the flags after `CommHandler.connect()`: started with thread and interface, or (raised) everything this call
+    started is stopped again; a started handler is left alone -/
+theorem commConnect_ctl (x : Sess) :
+    (commConnect x).2.dev = x.dev ∧ (commConnect x).2.connected = x.connected ∧
+    (commConnect x).2.streamStarted = x.streamStarted ∧ (commConnect x).2.streamThr = x.streamThr ∧
+    ((x.started = true ∧ (commConnect x).2.started = true ∧ (commConnect x).2.recvThr = x.recvThr ∧
+        (commConnect x).2.intf = x.intf ∧ ∃ a b c, (commConnect x).1 = .connected a b c) ∨
+     (x.started = false ∧ (∃ a b c, (commConnect x).1 = .connected a b c) ∧ (commConnect x).2.started = true ∧
+        (commConnect x).2.recvThr = true ∧ (commConnect x).2.intf = true) ∨
+     (x.started = false ∧ (∃ e, (commConnect x).1 = .raised e) ∧ (commConnect x).2.started = false ∧
+        (commConnect x).2.recvThr = false ∧ (commConnect x).2.intf = false)) := by
+  unfold commConnect
+  split
+  · next hs => exact ⟨rfl, rfl, rfl, rfl, Or.inl ⟨hs, hs, rfl, rfl, _, _, _, rfl⟩⟩
+  · next hs =>
+    simp only [Bool.not_eq_true] at hs
+    generalize connectLoop x.dev (startState x.st) connectAttempts = p
+    obtain ⟨o, s⟩ := p
+    cases o with
+    | connected a b c => exact ⟨rfl, rfl, rfl, rfl, Or.inr (Or.inl ⟨hs, ⟨_, _, _, rfl⟩, rfl, rfl, rfl⟩)⟩
+    | raised e =>
+      exact ⟨rfl, rfl, rfl, rfl, Or.inr (Or.inr ⟨hs, ⟨_, rfl⟩, hs, by simp [startCleansUp_true], by simp [startCleansUp_true]⟩)⟩
+
+/-! ### the control-state invariant of a session and what the calls leave behind -/
+
+/-- between calls: receive thread and interface run exactly while the handler is started; on a bare
+    `CommHandler` nothing of the upper layer exists; on a `NxscopeHandler` connected = started and the
+    stream thread runs exactly while the stream is marked started, which needs a started handler -/
+def WF (lvl : Level) (x : Sess) : Prop :=
+  x.recvThr = x.started ∧ x.intf = x.started ∧
+  match lvl with
+  | .low => x.connected = false ∧ x.streamThr = false ∧ x.streamStarted = false
+  | .high => x.connected = x.started ∧ x.streamThr = x.streamStarted ∧ (x.streamThr = true → x.started = true)
+
+theorem fresh_wf (lvl : Level) (dev : DevDesc) (script : List Resp) (dflt : Resp) :
+    WF lvl (Sess.fresh dev script dflt) := by
+  cases lvl <;> simp [WF, Sess.fresh]
+
+theorem commDisconnect_ctl (x : Sess) :
+    (commDisconnect x).dev = x.dev ∧ (commDisconnect x).connected = x.connected ∧
+    (commDisconnect x).streamStarted = x.streamStarted ∧ (commDisconnect x).streamThr = x.streamThr ∧
+    (commDisconnect x).started = false ∧
+    (commDisconnect x).recvThr = (x.recvThr && !x.started) ∧ (commDisconnect x).intf = (x.intf && !x.started) := by
+  unfold commDisconnect
+  split
+  · next h => simp [h]
+  · next h => simp only [Bool.not_eq_true] at h; simp [h]
+
+/-- `NxscopeHandler.disconnect()` on a well-formed session: it returns with everything stopped, or an ACK wait raised
+    `struct.error` (an ACK frame of the wrong size: outside the property's fault classes) -/
+theorem hlDisconnect_ctl (x : Sess) (w : Nat) (h : WF .high x) :
+    (hlDisconnect x w).2.dev = x.dev ∧
+    (((hlDisconnect x w).1 = none ∧ (hlDisconnect x w).2.started = false ∧ (hlDisconnect x w).2.recvThr = false ∧
+        (hlDisconnect x w).2.intf = false ∧ (hlDisconnect x w).2.connected = false ∧
+        (hlDisconnect x w).2.streamThr = false ∧ (hlDisconnect x w).2.streamStarted = false) ∨
+     ((hlDisconnect x w).1 = some .structError ∧ WF .high (hlDisconnect x w).2)) := by
+  obtain ⟨w1, w2, w3, w4, w5⟩ := h
+  unfold hlDisconnect
+  split
+  · next hc =>
+    have hst : x.started = true := by rw [← w3]; exact hc
+    obtain ⟨s0, s1, s2, s3, s4, s5⟩ := hlStreamStop_ctl x w
+    generalize hlStreamStop x w = p at s0 s1 s2 s3 s4 s5
+    obtain ⟨o, y⟩ := p
+    simp only at s0 s1 s2 s3 s4 s5
+    rcases s5 with ⟨ho, t1, t2⟩ | ⟨ho, t1, t2⟩
+    · subst ho
+      simp only
+      obtain ⟨_, c1, e1⟩ := channelsWrite_spec y
+      generalize channelsWrite y = q at c1 e1
+      obtain ⟨o2, z⟩ := q
+      obtain ⟨a0, a1, a2, a3, a4, a5, a6⟩ := c1
+      simp only at a0 a1 a2 a3 a4 a5 a6 e1
+      have hthr : y.streamThr = false := by
+        rw [t1, w4]; cases x.streamStarted <;> rfl
+      cases o2 with
+      | none =>
+        simp only
+        obtain ⟨d0, d1, d2, d3, d4, d5, d6⟩ := commDisconnect_ctl z
+        refine ⟨d0.trans (a0.trans s0), Or.inl ⟨by trivial, d4, ?_, ?_, by trivial, ?_, ?_⟩⟩
+        · rw [d5, a1, s1, hst]; simp
+        · rw [d6, a1, s1, hst]; simp
+        · rw [d3, a6, hthr]
+        · rw [d2, a5, t2]
+      | some e =>
+        simp only
+        have he : e = .structError := by
+          rcases e1 e rfl with ⟨_, h2⟩ | h2
+          · rw [s1, hst] at h2; cases h2
+          · exact h2
+        subst he
+        refine ⟨a0.trans s0, Or.inr ⟨by trivial, ?_, ?_, ?_, ?_, ?_⟩⟩
+        · rw [a2, a1, s2, s1]; exact w1
+        · rw [a3, a1, s3, s1]; exact w2
+        · rw [a4, a1, s4, s1]; exact w3
+        · rw [a6, a5, hthr, t2]
+        · rw [a6, hthr]; intro hh; cases hh
+    · subst ho
+      simp only
+      refine ⟨s0, Or.inr ⟨by trivial, ?_, ?_, ?_, ?_, ?_⟩⟩
+      · rw [s2, s1]; exact w1
+      · rw [s3, s1]; exact w2
+      · rw [s4, s1]; exact w3
+      · rw [t1, t2]; exact w4
+      · rw [t1, s1]; exact w5
+  · next hc =>
+    -- not connected: nothing is running (the session is well-formed)
+    simp only [Bool.not_eq_true] at hc
+    have hst : x.started = false := by rw [← w3]; exact hc
+    have hthr : x.streamThr = false := by
+      cases ht : x.streamThr with
+      | false => rfl
+      | true => rw [w5 ht] at hst; cases hst
+    refine ⟨rfl, Or.inl ⟨rfl, hst, by rw [w1]; exact hst, by rw [w2]; exact hst, hc, hthr, by rw [← w4]; exact hthr⟩⟩
+
+theorem hlConnect_ctl (x : Sess) (h : WF .high x) :
+    (hlConnect x).2.dev = x.dev ∧ WF .high (hlConnect x).2 ∧
+    (∀ e, (hlConnect x).1 = .raised e →
+      (hlConnect x).2.recvThr = false ∧ (hlConnect x).2.intf = false ∧ (hlConnect x).2.streamThr = false) := by
+  obtain ⟨w1, w2, w3, w4, w5⟩ := h
+  unfold hlConnect
+  split
+  · next hc =>
+    exact ⟨rfl, ⟨w1, w2, w3, w4, w5⟩, fun e he => by simp at he⟩
+  · next hc =>
+    simp only [Bool.not_eq_true] at hc
+    have hst : x.started = false := by rw [← w3]; exact hc
+    have hthr : x.streamThr = false := by
+      cases ht : x.streamThr with
+      | false => rfl
+      | true => rw [w5 ht] at hst; cases hst
+    obtain ⟨c0, c1, c2, c3, c4⟩ := commConnect_ctl x
+    generalize commConnect x = p at c0 c1 c2 c3 c4
+    obtain ⟨o, y⟩ := p
+    simp only at c0 c1 c2 c3 c4
+    rcases c4 with ⟨hs, _⟩ | ⟨_, ⟨a, b, c, ho⟩, d1, d2, d3⟩ | ⟨_, ⟨e, ho⟩, d1, d2, d3⟩
+    · rw [hst] at hs; cases hs
+    · subst ho
+      simp only
+      refine ⟨c0, ⟨by rw [d2, d1], by rw [d3, d1], d1.symm, by rw [c3, c2]; exact w4, ?_⟩, fun e he => by simp at he⟩
+      intro _; exact d1
+    · subst ho
+      simp only
+      refine ⟨c0, ⟨by rw [d2, d1], by rw [d3, d1], by rw [c1, d1]; exact hc, by rw [c3, c2]; exact w4, ?_⟩,
+        fun e' _ => ⟨d2, d3, by rw [c3]; exact hthr⟩⟩
+      rw [c3, hthr]; intro hh; cases hh
+
+theorem commConnect_wf_low (x : Sess) (h : WF .low x) :
+    (commConnect x).2.dev = x.dev ∧ WF .low (commConnect x).2 ∧
+    (∀ e, (commConnect x).1 = .raised e →
+      (commConnect x).2.recvThr = false ∧ (commConnect x).2.intf = false ∧ (commConnect x).2.streamThr = false) := by
+  obtain ⟨w1, w2, w3, w4, w5⟩ := h
+  obtain ⟨c0, c1, c2, c3, c4⟩ := commConnect_ctl x
+  refine ⟨c0, ?_, ?_⟩
+  · refine ⟨?_, ?_, by rw [c1]; exact w3, by rw [c3]; exact w4, by rw [c2]; exact w5⟩
+    · rcases c4 with ⟨hs, d1, d2, _⟩ | ⟨_, _, d1, d2, d3⟩ | ⟨_, _, d1, d2, d3⟩
+      · rw [d2, d1, w1, hs]
+      · rw [d2, d1]
+      · rw [d2, d1]
+    · rcases c4 with ⟨hs, d1, _, d3, _⟩ | ⟨_, _, d1, d2, d3⟩ | ⟨_, _, d1, d2, d3⟩
+      · rw [d3, d1, w2, hs]
+      · rw [d3, d1]
+      · rw [d3, d1]
+  · intro e he
+    rcases c4 with ⟨_, _, _, _, a, b, c, ho⟩ | ⟨_, ⟨a, b, c, ho⟩, _⟩ | ⟨_, _, d1, d2, d3⟩
+    · rw [ho] at he; cases he
+    · rw [ho] at he; cases he
+    · exact ⟨d2, d3, by rw [c3]; exact w4⟩
+
+/-- every call preserves the invariant and the device -/
+theorem step_wf (lvl : Level) (x : Sess) (op : Op) (w : Nat) (h : WF lvl x) :
+    WF lvl (step lvl x op w).2 ∧ (step lvl x op w).2.dev = x.dev := by
+  cases op with
+  | pause =>
+    unfold step
+    cases lvl <;> exact ⟨h, rfl⟩
+  | connect =>
+    cases lvl with
+    | low => unfold step; exact ⟨(commConnect_wf_low x h).2.1, (commConnect_wf_low x h).1⟩
+    | high => unfold step; exact ⟨(hlConnect_ctl x h).2.1, (hlConnect_ctl x h).1⟩
+  | disconnect =>
+    cases lvl with
+    | low =>
+      unfold step
+      obtain ⟨w1, w2, w3, w4, w5⟩ := h
+      obtain ⟨d0, d1, d2, d3, d4, d5, d6⟩ := commDisconnect_ctl x
+      refine ⟨⟨?_, ?_, by rw [d1]; exact w3, by rw [d3]; exact w4, by rw [d2]; exact w5⟩, d0⟩
+      · simp only; rw [d5, d4, w1]; cases x.started <;> rfl
+      · simp only; rw [d6, d4, w2]; cases x.started <;> rfl
+    | high =>
+      unfold step
+      obtain ⟨d0, hh⟩ := hlDisconnect_ctl x w h
+      refine ⟨?_, d0⟩
+      rcases hh with ⟨_, a1, a2, a3, a4, a5, a6⟩ | ⟨_, hwf⟩
+      · simp only
+        exact ⟨by rw [a2, a1], by rw [a3, a1], by rw [a4, a1], by rw [a5, a6], by rw [a5]; intro hh; cases hh⟩
+      · exact hwf
+  | streamStart =>
+    cases lvl with
+    | low =>
+      unfold step
+      obtain ⟨w1, w2, w3, w4, w5⟩ := h
+      obtain ⟨b1, b2, b3, b4, b5, b6⟩ := ackReq_flags x .start ackTimeoutStart
+      refine ⟨⟨?_, ?_, ?_, ?_, ?_⟩, ackReq_dev x .start ackTimeoutStart⟩
+      · simp only; rw [b2, b1]; exact w1
+      · simp only; rw [b3, b1]; exact w2
+      · simp only; rw [b4]; exact w3
+      · simp only; rw [b6]; exact w4
+      · simp only; rw [b5]; exact w5
+    | high =>
+      unfold step
+      obtain ⟨w1, w2, w3, w4, w5⟩ := h
+      obtain ⟨s0, s1, s2, s3, s4, s5⟩ := hlStreamStart_ctl x
+      refine ⟨⟨?_, ?_, ?_, ?_, ?_⟩, s0⟩
+      · simp only; rw [s2, s1]; exact w1
+      · simp only; rw [s3, s1]; exact w2
+      · simp only; rw [s4, s1]; exact w3
+      · simp only
+        rcases s5 with ⟨_, h1, h2, h3⟩ | ⟨_, _, h2, h3⟩ | ⟨_, h2, h3⟩
+        · rw [h2, h3, w4, h1]
+        · rw [h2, h3]
+        · rw [h2, h3]; exact w4
+      · simp only
+        rcases s5 with ⟨_, h1, h2, h3⟩ | ⟨_, h1, h2, h3⟩ | ⟨_, h2, h3⟩
+        · rw [h2, s1]; exact w5
+        · rw [s1]; intro _; exact h1
+        · rw [h2, s1]; exact w5
+  | streamStop =>
+    cases lvl with
+    | low =>
+      unfold step
+      obtain ⟨w1, w2, w3, w4, w5⟩ := h
+      obtain ⟨b1, b2, b3, b4, b5, b6⟩ := ackReq_flags x (.info .stop) ackTimeoutStop
+      refine ⟨⟨?_, ?_, ?_, ?_, ?_⟩, ackReq_dev x (.info .stop) ackTimeoutStop⟩
+      · simp only; rw [b2, b1]; exact w1
+      · simp only; rw [b3, b1]; exact w2
+      · simp only; rw [b4]; exact w3
+      · simp only; rw [b6]; exact w4
+      · simp only; rw [b5]; exact w5
+    | high =>
+      unfold step
+      obtain ⟨w1, w2, w3, w4, w5⟩ := h
+      obtain ⟨s0, s1, s2, s3, s4, s5⟩ := hlStreamStop_ctl x w
+      refine ⟨⟨?_, ?_, ?_, ?_, ?_⟩, s0⟩
+      · simp only; rw [s2, s1]; exact w1
+      · simp only; rw [s3, s1]; exact w2
+      · simp only; rw [s4, s1]; exact w3
+      · simp only
+        rcases s5 with ⟨_, h2, h3⟩ | ⟨_, h2, h3⟩
+        · rw [h2, h3, w4]; cases x.streamStarted <;> rfl
+        · rw [h2, h3]; exact w4
+      · simp only
+        rcases s5 with ⟨_, h2, h3⟩ | ⟨_, h2, h3⟩
+        · rw [h2, w4]; cases x.streamStarted <;> simp
+        · rw [h2, s1]; exact w5
+
+/-- the clock after one call -/
+theorem step_time_le (lvl : Level) (x : Sess) (op : Op) (w : Nat) :
+    (step lvl x op w).2.st.time ≤ x.st.time + opBound lvl x.dev.chmax op := by
+  cases op <;> cases lvl <;> unfold step opBound <;> dsimp only
+  · exact commConnect_time_le x
+  · unfold hlConnect
+    split
+    · dsimp only; omega
+    · have h := commConnect_time_le x
+      generalize commConnect x = p at h
+      obtain ⟨o, y⟩ := p
+      cases o <;> exact h
+  · exact ackReq_time_le x .start ackTimeoutStart
+  · exact hlStreamStart_time_le x
+  · exact ackReq_time_le x (.info .stop) ackTimeoutStop
+  · exact hlStreamStop_time_le x w
+  · exact commDisconnect_time x
+  · exact hlDisconnect_time_le x w
+  · omega
+  · omega
+
+/-- the sum of the per-call bounds of a session -/
+def sessionBound (lvl : Level) (chmax : Nat) : List (Op × Nat) → Nat
+  | [] => 0
+  | (op, _) :: rest => opBound lvl chmax op + sessionBound lvl chmax rest
+
+theorem run_time_le (lvl : Level) : ∀ (ops : List (Op × Nat)) (x : Sess), WF lvl x →
+    (run lvl x ops).2.st.time ≤ x.st.time + sessionBound lvl x.dev.chmax ops ∧ WF lvl (run lvl x ops).2
+  | [], x, h => ⟨by simp [run, sessionBound], h⟩
+  | (op, w) :: rest, x, h => by
+    have h1 := step_time_le lvl x op w
+    obtain ⟨hw, hd⟩ := step_wf lvl x op w h
+    obtain ⟨h2, hw2⟩ := run_time_le lvl rest (step lvl x op w).2 hw
+    rw [hd] at h2
+    have e : (run lvl x ((op, w) :: rest)).2 = (run lvl (step lvl x op w).2 rest).2 := rfl
+    rw [e]
+    exact ⟨by simp only [sessionBound]; omega, hw2⟩
+
+/-! ### the first connect of a session is the `connect` of the single-connect theorems -/
+
+/-- a script as a test writes it: nothing is marked as swallowed yet -/
+def Plain (script : List Resp) (dflt : Resp) : Prop := (∀ r ∈ script, r.unswallow = r) ∧ dflt.unswallow = dflt
+
+theorem map_unswallow_plain : ∀ (script : List Resp), (∀ r ∈ script, r.unswallow = r) → script.map Resp.unswallow = script
+  | [], _ => rfl
+  | a :: rest, h => by
+    rw [List.map_cons, h a (by simp), map_unswallow_plain rest (fun r hr => h r (by simp [hr]))]
+
+theorem startState_fresh (dev : DevDesc) (script : List Resp) (dflt : Resp) (h : Plain script dflt) :
+    startState (Sess.fresh dev script dflt).st = start script dflt := by
+  obtain ⟨h1, h2⟩ := h
+  simp [startState, start, Sess.fresh, St.unpoison, map_unswallow_plain script h1, h2]
+
+/-- the first connect of a session is the `connect` of the single-connect theorems -/
+theorem commConnect_fresh (dev : DevDesc) (script : List Resp) (dflt : Resp) (h : Plain script dflt) :
+    (commConnect (Sess.fresh dev script dflt)).1 = (connect dev script dflt).outcome ∧
+    (commConnect (Sess.fresh dev script dflt)).2.st.time = (connect dev script dflt).time ∧
+    (commConnect (Sess.fresh dev script dflt)).2.recvThr = (connect dev script dflt).recvThreadRunning ∧
+    (commConnect (Sess.fresh dev script dflt)).2.intf = (connect dev script dflt).intfRunning ∧
+    (commConnect (Sess.fresh dev script dflt)).2.log = (connect dev script dflt).sent.map .info := by
+  have hs := startState_fresh dev script dflt h
+  unfold commConnect connect
+  have h0 : (Sess.fresh dev script dflt).started = false := rfl
+  rw [h0]
+  simp only [Bool.false_eq_true, ↓reduceIte]
+  rw [hs]
+  have hd : (Sess.fresh dev script dflt).dev = dev := rfl
+  rw [hd]
+  unfold start
+  generalize connectLoop dev _ connectAttempts = p
+  obtain ⟨o, s⟩ := p
+  cases o <;> simp [Sess.fresh]
+
+/-! ### `struct.error` out of an ACK wait needs an ACK frame of the wrong size -/
+
+/-- the device never answers with a frame of the right kind and the wrong size -/
+def NoShort (s : St) : Prop := (∀ r ∈ s.script, r.unswallow ≠ .short) ∧ s.dflt.unswallow ≠ .short
+
+theorem next_noShort (s : St) (h : NoShort s) : s.next.1.unswallow ≠ .short ∧ NoShort s.next.2 := by
+  obtain ⟨h1, h2⟩ := h
+  unfold St.next
+  split
+  · exact ⟨h2, by simp_all [NoShort]⟩
+  · next r rest hs =>
+    exact ⟨h1 r (by simp [hs]), ⟨fun y hy => h1 y (by simp [hs, hy]), h2⟩⟩
+
+theorem ackReq_noShort (x : Sess) (r : Sent) (t : Nat) (h : NoShort x.st) :
+    (∀ e, (ackReq x r t).1 ≠ .raise e) ∧ NoShort (ackReq x r t).2.st := by
+  unfold ackReq
+  dsimp only
+  split
+  · obtain ⟨h1, h2⟩ := next_noShort x.st h
+    generalize x.st.next = p at h1 h2
+    obtain ⟨resp, st⟩ := p
+    simp only at h1 h2
+    obtain ⟨n1, n2⟩ := h2
+    cases resp with
+    | short => simp [Resp.unswallow] at h1
+    | garbage =>
+      refine ⟨fun e he => by simp at he, ?_, ?_⟩
+      · intro y hy
+        simp only [St.poison, List.mem_map] at hy
+        obtain ⟨a, ha, rfl⟩ := hy
+        simpa [Resp.unswallow] using n1 a ha
+      · simpa [St.poison, Resp.unswallow] using n2
+    | ok => exact ⟨fun e he => by simp at he, n1, n2⟩
+    | silent => exact ⟨fun e he => by simp at he, n1, n2⟩
+    | wrong => exact ⟨fun e he => by simp at he, n1, n2⟩
+    | nack => exact ⟨fun e he => by simp at he, n1, n2⟩
+    | noise => exact ⟨fun e he => by simp at he, n1, n2⟩
+    | swallowed r' => exact ⟨fun e he => by simp at he, n1, n2⟩
+  · exact ⟨fun e he => by simp at he, h⟩
+
+theorem ackStep_noShort (x : Sess) (r : Sent) (t : Nat) (h : NoShort x.st) :
+    (ackStep x r t).1 = none ∧ NoShort (ackStep x r t).2.st := by
+  obtain ⟨h1, h2⟩ := ackReq_noShort x r t h
+  unfold ackStep
+  generalize ackReq x r t = p at h1 h2
+  obtain ⟨a, y⟩ := p
+  cases a with
+  | raise e => exact absurd rfl (h1 e)
+  | ok => exact ⟨rfl, h2⟩
+  | fail => exact ⟨rfl, h2⟩
+
+theorem channelsWrite_noShort (x : Sess) (hs : x.started = true) (h : NoShort x.st) :
+    (channelsWrite x).1 = none ∧ NoShort (channelsWrite x).2.st := by
+  unfold channelsWrite
+  rw [hs]
+  simp only [Bool.not_true, Bool.false_eq_true, ↓reduceIte]
+  split
+  · exact ⟨rfl, h⟩
+  · split
+    · obtain ⟨a1, a2⟩ := ackStep_noShort x .div ackTimeoutDiv h
+      generalize ackStep x .div ackTimeoutDiv = p at a1 a2
+      obtain ⟨o, y⟩ := p
+      simp only at a1 a2
+      subst a1
+      exact ackStep_noShort y .enable ackTimeoutEnable a2
+    · exact ackStep_noShort x .enable ackTimeoutEnable h
+
+/-- within the fault classes (no ACK frame of the wrong size) `NxscopeHandler.disconnect()` does not raise -/
+theorem hlDisconnect_noShort (x : Sess) (w : Nat) (hw : WF .high x) (h : NoShort x.st) :
+    (hlDisconnect x w).1 = none := by
+  obtain ⟨w1, w2, w3, w4, w5⟩ := hw
+  unfold hlDisconnect
+  split
+  · next hc =>
+    have hst : x.started = true := by rw [← w3]; exact hc
+    have hstop : (hlStreamStop x w).1 = none ∧ NoShort (hlStreamStop x w).2.st ∧ (hlStreamStop x w).2.started = true := by
+      unfold hlStreamStop
+      split
+      · obtain ⟨a1, a2⟩ := ackStep_noShort x (.info .stop) ackTimeoutStop h
+        obtain ⟨_, c1, _⟩ := ackStep_spec x (.info .stop) ackTimeoutStop
+        generalize ackStep x (.info .stop) ackTimeoutStop = p at a1 a2 c1
+        obtain ⟨o, y⟩ := p
+        simp only at a1 a2
+        subst a1
+        exact ⟨rfl, a2, by simp only; rw [c1.2.1]; exact hst⟩
+      · exact ⟨rfl, h, hst⟩
+    obtain ⟨b1, b2, b3⟩ := hstop
+    generalize hlStreamStop x w = p at b1 b2 b3
+    obtain ⟨o, y⟩ := p
+    simp only at b1 b2 b3
+    subst b1
+    simp only
+    obtain ⟨c1, _⟩ := channelsWrite_noShort y b3 b2
+    generalize channelsWrite y = q at c1
+    obtain ⟨o2, z⟩ := q
+    simp only at c1
+    subst c1
+    rfl
+  · rfl
 
 end Handshake
 
@@ -584,4 +1287,43 @@ theorem serial_declaredLen_lt (fuel : Nat) (buf : Bytes) (rs : List Bytes) :
   · exact serial_flen_lt (hsome h bb hr).1
 
 end Reasm
+
+/-! ### the receive thread: with the stop flag set it leaves its loop after at most one more body invocation -/
+namespace RecvThread
+open Worker
+set_option linter.unusedSimpArgs false
+
+theorem loop_len : Worker.loopProg.length = 7 := by decide
+
+/-- from ANY instruction of the generated `_thread_loop` (also from one that is not in the program), with the stop
+    flag set and staying set, the thread has returned after `loopProg.length` of its own instructions, has invoked the
+    body at most once more, and that invocation consumed a prefix of the link script bounded as in `readFrame_reads` -/
+theorem run_stop_from (c : Codec) (hc : LawfulCodec c) (fuel : Nat) (pc : Nat) (buf : Bytes) (rs : List Bytes) :
+    (run c fuel true Worker.loopProg.length (at_ pc buf rs)).exited = true ∧
+    (run c fuel true Worker.loopProg.length (at_ pc buf rs)).calls ≤ 1 ∧
+    ∃ k, (run c fuel true Worker.loopProg.length (at_ pc buf rs)).rs = rs.drop k ∧
+      k ≤ (c.hdrLen - buf.length) + (c.hdrLen - 1) +
+        (Reasm.declaredLen (Reasm.readHdr c fuel buf rs) - c.hdrLen) := by
+  rw [loop_len]
+  obtain ⟨k, hk1, hk2⟩ := Reasm.readFrame_reads hc fuel buf rs
+  match pc with
+  | 0 | 1 | 2 | 4 | 5 | 6 =>
+    refine ⟨?_, ?_, 0, ?_, by omega⟩ <;>
+      simp [run, step, at_, Worker.loopProg, Gen.Thread.threadLoop, Worker.execW, cfg, shared, Worker.fresh]
+  | 3 =>
+    refine ⟨?_, ?_, k, ?_, hk2⟩ <;>
+      simp [run, step, at_, Worker.loopProg, Gen.Thread.threadLoop, Worker.execW, cfg, shared, Worker.fresh, hk1]
+  | n + 7 =>
+    refine ⟨?_, ?_, 0, ?_, by omega⟩ <;>
+      simp [run, step, at_, Worker.loopProg, Gen.Thread.threadLoop, Worker.execW, cfg, shared, Worker.fresh]
+
+/-- while the flag is clear the thread keeps going: from the loop test it invokes the body and is back at the test
+    (so the bound above is about the LAST invocation, not about a thread that had stopped working anyway) -/
+theorem run_clear_from_test (c : Codec) (fuel : Nat) (buf : Bytes) (rs : List Bytes) :
+    (run c fuel false 2 (at_ 2 buf rs)).exited = false ∧ (run c fuel false 2 (at_ 2 buf rs)).calls = 1 ∧
+    (run c fuel false 2 (at_ 2 buf rs)).w.pc = 2 ∧
+    (run c fuel false 2 (at_ 2 buf rs)).rs = (Reasm.readFrame c fuel buf rs).2.2 := by
+  simp [run, step, at_, Worker.loopProg, Gen.Thread.threadLoop, Worker.execW, cfg, shared, Worker.fresh]
+
+end RecvThread
 end Nxs
